@@ -210,6 +210,72 @@ func opInputWalk(helper string, g *graph.G, walk []int, seed int64, settle bool)
 	return trace, labels, nil
 }
 
+// oiLongLine types one line of n characters (in pieces, so that the pty's own input queue is not
+// what limits it) and returns what the input channel received for it.
+func oiLongLine(helper string, n int) (got string, want string, err error) {
+	crd, cwr, err := os.Pipe()
+	if err != nil {
+		return "", "", err
+	}
+	defer cwr.Close()
+	nrd, nwr, err := os.Pipe()
+	if err != nil {
+		return "", "", err
+	}
+	p, err := ptyx.Start(helper, nil, ptyx.Opts{ExtraFiles: []*os.File{crd, nwr}, Env: []string{"OPSH_ICH=1"}})
+	crd.Close()
+	nwr.Close()
+	if err != nil {
+		nrd.Close()
+		return "", "", err
+	}
+	defer p.Close()
+	entries := make(chan string, 16)
+	go func() {
+		defer nrd.Close()
+		sc := bufio.NewScanner(nrd)
+		sc.Buffer(make([]byte, 1<<20), 1<<22)
+		for sc.Scan() {
+			f := strings.Fields(sc.Text())
+			if len(f) >= 1 && f[0] == "I" {
+				var b []byte
+				if len(f) == 2 {
+					b, _ = base64.StdEncoding.DecodeString(f[1])
+				}
+				entries <- string(b)
+			}
+		}
+	}()
+	dl := time.Now().Add(10 * time.Second)
+	for !bytes.Contains(p.Output(), []byte("<READY>")) {
+		if time.Now().After(dl) {
+			return "", "", fmt.Errorf("helper did not come up")
+		}
+		time.Sleep(time.Millisecond)
+	}
+	var sb strings.Builder
+	for i := 0; sb.Len() < n; i++ {
+		sb.WriteString(fmt.Sprintf("%06d.", i))
+	}
+	want = sb.String()[:n]
+	for off := 0; off < len(want); off += 200 {
+		end := off + 200
+		if end > len(want) {
+			end = len(want)
+		}
+		p.Type([]byte(want[off:end]))
+		// wait for the echo of this piece before sending the next
+		time.Sleep(8 * time.Millisecond)
+	}
+	p.Type([]byte("\r"))
+	select {
+	case got = <-entries:
+		return got, want, nil
+	case <-time.After(8 * time.Second):
+		return "", want, fmt.Errorf("no entry for a line of %d characters", n)
+	}
+}
+
 const oiTraceCfg = `SPECIFICATION TSpec
 CONSTANTS
   MaxLines = 100
@@ -259,6 +325,24 @@ func opInputLeg(r *ev.Run) {
 	if len(walks) > limit {
 		rng.Shuffle(len(walks), func(i, j int) { walks[i], walks[j] = walks[j], walks[i] })
 		walks = walks[:limit]
+	}
+	// very long typed lines: the line editor's capacity
+	for _, n := range []int{4096, 4097, 6000} {
+		got, want, err := oiLongLine(helper, n)
+		if err != nil {
+			r.Inconclusive("long typed line: %v", err)
+			continue
+		}
+		r.Add("evaluations", 1)
+		if got != want {
+			key := "operator-input:typed-line-over-4096-characters"
+			if n <= 4096 {
+				key = "operator-input:long-typed-line"
+			}
+			r.Violation(key, map[string]any{"kind": "one line typed on the pty of the real opshell", "typed_characters": n, "entered_characters": len(got),
+				"entered_is_prefix_of_typed": strings.HasPrefix(want, got)})
+			break
+		}
 	}
 	traces := make([][]brk.TraceEv, len(walks))
 	labels := make([][]string, len(walks))
